@@ -6,6 +6,7 @@
 #include <cstdint>
 #include <type_traits>
 #include <new>
+#include <iterator>
 
 extern "C" {
 void* vf_alloc(unsigned flags, unsigned long id, unsigned long bytes, unsigned long align);
@@ -59,6 +60,37 @@ struct LedgerAlloc
         return is_always_equal::value || a.id == b.id;
     }
     friend bool operator!=(const LedgerAlloc& a, const LedgerAlloc& b) noexcept { return !(a == b); }
+};
+
+// unscoped enum with a fixed underlying type (source/stored type for conversions)
+enum E32 : std::uint32_t
+{
+};
+
+// a forward iterator that is not contiguous: yields every second item of an array (a "generated range")
+template <class U>
+struct StrideIt
+{
+    using value_type = U;
+    using difference_type = std::ptrdiff_t;
+    using pointer = const U*;
+    using reference = const U&;
+    using iterator_category = std::forward_iterator_tag;
+    const U* p;
+    const U& operator*() const noexcept { return *p; }
+    StrideIt& operator++() noexcept
+    {
+        p += 2;
+        return *this;
+    }
+    StrideIt operator++(int) noexcept
+    {
+        auto c = *this;
+        p += 2;
+        return c;
+    }
+    friend bool operator==(const StrideIt& a, const StrideIt& b) noexcept { return a.p == b.p; }
+    friend bool operator!=(const StrideIt& a, const StrideIt& b) noexcept { return a.p != b.p; }
 };
 
 // Non-trivial value type: every special member reports to a hook.
